@@ -10,6 +10,8 @@ per-assignment simulation; flatten preserves every gate parameter).
 """
 from __future__ import annotations
 
+import itertools
+
 import json
 from fractions import Fraction
 
@@ -129,6 +131,7 @@ def run(ctx: common.Run):
     check_compose(ctx, cirq, sympy, n)
     check_single_pass_wrappers(ctx, cirq, sympy)
     check_symbolic_repetitions(ctx, cirq, sympy)
+    check_derived_circuits(ctx, cirq, sympy)
 
 
 def check_sweeps(ctx, cirq, n):
@@ -595,6 +598,58 @@ def check_gate_families(ctx, cirq, sympy, rounds):
                     ctx.report_witness(f'family:resolve:{name}', 'resolving the parameters of a gate gives a different matrix than building the gate from the resolved numbers',
                                        dict(rep, impl_out=[repr(res)], spec_out=[repr(num)]))
                     break
+
+
+def check_derived_circuits(ctx, cirq, sympy):
+    """a circuit built from another circuit whose summaries (is_parameterized, parameter_names, ...) have already been asked for —
+    copy, +, op-tree + circuit, *, slices, freeze / unfreeze — reports its own parameters and resolves like a freshly built one"""
+    rng = ctx.substream('derived-circuits')
+    q0, q1 = cirq.LineQubit.range(2)
+    a, b = sympy.Symbol('a'), sympy.Symbol('b')
+    bases = [('plain', lambda: cirq.Circuit(cirq.H(q0), cirq.CNOT(q0, q1))), ('symbolic', lambda: cirq.Circuit(cirq.X(q0) ** a, cirq.CNOT(q0, q1))),
+             ('empty', lambda: cirq.Circuit())]
+    extras = [('symbolic-op', cirq.Z(q1) ** b), ('plain-op', cirq.Y(q1))]
+    for (bname, mk), (ename, extra) in itertools.product(bases, extras):
+        for warm in (True, False):
+            base = mk()
+            if warm:
+                cirq.is_parameterized(base), cirq.parameter_names(base), base.all_qubits(), cirq.is_measurement(base)
+                try:
+                    cirq.Simulator().simulate(base, param_resolver={'a': 0.25, 'b': 0.5})
+                except Exception:  # noqa: BLE001
+                    pass
+            derived = {
+                'optree + circuit': lambda: [extra] + base, 'circuit + optree': lambda: base + [extra], 'copy then append': lambda: _appended(base.copy(), extra),
+                'circuit + circuit': lambda: base + cirq.Circuit(extra), 'frozen: optree + circuit': lambda: ([extra] + base.freeze()).unfreeze(),
+                'unfreeze(copy) then append': lambda: _appended(base.freeze().unfreeze(), extra), 'slice then append': lambda: _appended(base[:], extra),
+                '* 2 then insert': lambda: _inserted(base * 2, extra), 'moment-wise radd': lambda: cirq.Moment(extra) + base if hasattr(cirq.Moment, '__radd__') else [extra] + base,
+            }
+            for dname, f in derived.items():
+                try:
+                    c = f()
+                except TypeError:
+                    continue
+                fresh = cirq.Circuit(list(c.moments))
+                res = {'a': 0.25, 'b': 0.5}
+                ctx.count('check', 'derived-circuit')
+                ctx.case(['derived', bname, ename, warm, dname], True)
+                got = (cirq.is_parameterized(c), sorted(cirq.parameter_names(c)), cirq.resolve_parameters(c, res) == cirq.resolve_parameters(fresh, res),
+                       cirq.is_parameterized(cirq.resolve_parameters(c, res)))
+                want = (cirq.is_parameterized(fresh), sorted(cirq.parameter_names(fresh)), True, False)
+                if got != want:
+                    ctx.report_witness('circuit:derived:stale-parameters', f'a circuit obtained as `{dname}` from a circuit whose summaries were already computed reports stale parameters / does not resolve',
+                                       {'lines': [{'base': bname, 'extra': ename, 'summaries_asked_before': warm, 'construction': dname, 'circuit': repr(c)}], 'impl_out': [list(map(repr, got))],
+                                        'spec_out': [list(map(repr, want))], 'theorem_or_correspondence': 'C10_subst_commutes (resolution of every derived circuit)'})
+
+
+def _appended(c, op):
+    c.append(op)
+    return c
+
+
+def _inserted(c, op):
+    c.insert(0, op)
+    return c
 
 
 def check_single_pass_wrappers(ctx, cirq, sympy):
